@@ -101,6 +101,7 @@ class Sim:
         inline: Optional[Callable[[str], bool]] = None,
         loop_iters: Tuple[int, ...] = (0, 1),
         raises: Optional[Callable[[str, V], List[str]]] = None,
+        seq_len: Optional[Dict[Any, int]] = None,
     ):
         self.prog = prog
         self.fi = fi
@@ -111,6 +112,7 @@ class Sim:
         self.inline = inline if inline is not None else is_new_helper
         self.loop_iters = loop_iters
         self.raises = raises  # callee name, call value -> exception classes the call may raise (forked)
+        self.seq_len = seq_len or {}  # value of a sequence -> its (assumed) length: loops over it run exactly that often
 
     # ------------------------------------------------------------------ api
     def paths(self) -> List[PPath]:
@@ -280,8 +282,35 @@ class _Run:
             return
         raise AnalysisError("statement %s in %s is outside the path simulator's fragment" % (type(s).__name__, self.fstack[-1].key))
 
+    def known_len(self, it: V) -> Optional[int]:
+        """length of an iterable derived from a sequence whose length the scenario fixes"""
+        sl = self.sim.seq_len
+        if not sl or not isinstance(it, tuple) or not it:
+            return None
+        if it in sl:
+            return sl[it]
+        if it[0] == "call" and it[1] in ("enumerate", "list", "tuple", "reversed", "sorted", "iter") and len(it[2]) >= 1:
+            return self.known_len(it[2][0])
+        if it[0] == "call" and it[1] == "zip" and it[2]:
+            ns = [self.known_len(a) for a in it[2]]
+            return min(ns) if all(n is not None for n in ns) else None
+        if it[0] == "call" and str(it[1]).endswith("combinations") and len(it[2]) == 2 and it[2][1] == const(2):
+            n = self.known_len(it[2][0])
+            return n * (n - 1) // 2 if n is not None else None
+        if it[0] == "call" and it[1] == "range" and len(it[2]) == 1 and isinstance(it[2][0], tuple) and it[2][0][0] == "call" and it[2][0][1] == "len" and len(it[2][0][2]) == 1:
+            return self.known_len(it[2][0][2][0])
+        if it[0] == "sub" and isinstance(it[2], tuple) and it[2][0] == "slice" and it[2][2] is None and it[2][3] is None:
+            n = self.known_len(it[1])
+            k = it[2][1]
+            if n is not None and (k is None or (is_const(k) and isinstance(k[1], int) and k[1] >= 0)):
+                return max(0, n - (k[1] if k is not None else 0))
+        return None
+
     def loop(self, s, env, it):
         iters = self.sim.loop_iters
+        fixed = self.known_len(it) if it is not None else None
+        if fixed is not None:
+            iters = (fixed,)
         k = iters[self.choose(len(iters), "loop@%d" % s.lineno)] if len(iters) > 1 else iters[0]
         self.path.decisions.append(("loop@%d iterations" % s.lineno, k))
         broke = False
@@ -315,6 +344,15 @@ class _Run:
             return ("tuple", tuple(self.element(a, lineno, i) for a in it[2]))
         if isinstance(it, tuple) and it and it[0] == "call" and it[1] == "enumerate" and len(it[2]) == 1:
             return ("tuple", (const(i), self.element(it[2][0], lineno, i)))
+        if isinstance(it, tuple) and it and it[0] == "call" and str(it[1]).endswith("combinations") and len(it[2]) == 2 and it[2][1] == const(2):
+            n = self.known_len(it[2][0])
+            if n is not None:
+                import itertools as _it
+
+                pairs = list(_it.combinations(range(n), 2))
+                if i < len(pairs):
+                    a, b = pairs[i]
+                    return ("tuple", (self.element(it[2][0], lineno, a), self.element(it[2][0], lineno, b)))
         if isinstance(it, tuple) and it and it[0] == "sub" and isinstance(it[2], tuple) and it[2][0] == "slice" and it[2][2] is None and it[2][3] is None:
             k = it[2][1]
             if k is None:
@@ -546,6 +584,9 @@ class _Run:
         f = self.fold(t)
         if is_const(f):
             return self.eval(e.body if f[1] else e.orelse, env)
+        if any(isinstance(n, ast.Call) for br in (e.body, e.orelse) for n in ast.walk(br)):
+            # a branch that calls something is control flow written as an expression: follow one branch per path
+            return self.eval(e.body if self.decide(t, e.test) else e.orelse, env)
         return ("ifexp", f, self.eval(e.body, env), self.eval(e.orelse, env))
 
     def e_JoinedStr(self, e, env):
@@ -634,6 +675,9 @@ class _Run:
         g = comp.generators[0]
         it = self.eval(g.iter, env)
         iters = self.sim.loop_iters
+        fixed = self.known_len(it)
+        if fixed is not None:
+            iters = (fixed,)
         lineno = getattr(comp, "lineno", 0)
         k = iters[self.choose(len(iters), "%s@%d" % (kind, lineno))] if len(iters) > 1 else iters[0]
         self.path.decisions.append(("loop@%d iterations" % lineno, k))
